@@ -78,7 +78,9 @@ fn slice(src_lines: &[&str], s: CaretPos, e: CaretPos) -> Option<String> {
 }
 
 fn check_spans(src: &str, toks: &[Lex], report: &mut Vec<String>) {
-    let lines: Vec<&str> = src.split('\n').map(|l| l.strip_suffix('\r').unwrap_or(l)).collect();
+    // raw lines: a '\r' before the line break stays part of the line (it is a character of a multi-line
+    // string token in a CRLF file; single-line tokens never reach it)
+    let lines: Vec<&str> = src.split('\n').collect();
     let mut last_end: Option<CaretPos> = None;
     let (mut indents, mut dedents, mut eofs) = (0i64, 0i64, 0);
     for (i, l) in toks.iter().enumerate() {
@@ -141,6 +143,31 @@ fn cmd_spans(path: &str) -> i32 {
             0
         }
     }
+}
+
+fn cmd_spansdir(dir: &str) -> i32 {
+    let mut names: Vec<_> = fs::read_dir(dir).expect("dir").filter_map(|e| e.ok()).map(|e| e.path()).collect();
+    names.sort();
+    let mut bad = 0;
+    for p in names {
+        let src = match fs::read_to_string(&p) { Ok(s) => s, Err(_) => continue };
+        println!("FILE|{}", p.file_name().unwrap().to_string_lossy());
+        match std::panic::catch_unwind(|| tokenize(&src)) {
+            Ok(Ok(toks)) => {
+                let mut rep = vec![];
+                check_spans(&src, &toks, &mut rep);
+                for r in &rep {
+                    println!("SPANFAIL|{}", esc(r));
+                }
+                if !rep.is_empty() { bad += 1; }
+                println!("SPANS|{}|{}", toks.len(), rep.len());
+            }
+            Ok(Err(e)) => println!("LEXERR|{}|{}|{}", e.pos.line, e.pos.pos, esc(&e.msg)),
+            Err(_) => { bad += 1; println!("PANIC|lexer panicked"); }
+        }
+    }
+    println!("SPANSDIR|{}", bad);
+    if bad == 0 { 0 } else { 1 }
 }
 
 fn s(x: &str) -> String {
@@ -254,6 +281,7 @@ fn main() {
         Some("lex") => cmd_lex(&a[2]),
         Some("spans") => cmd_spans(&a[2]),
         Some("relex") => cmd_relex(),
+        Some("spansdir") => cmd_spansdir(&a[2]),
         Some("pipeline") => cmd_pipeline(&a[2], a.get(3).map_or(false, |x| x == "1")),
         Some("caret") => {
             let v: Vec<usize> = a[3..].iter().map(|x| x.parse().unwrap()).collect();
